@@ -2,6 +2,7 @@ package nc
 
 import (
 	"fmt"
+	"go/token"
 	"go/types"
 	"sort"
 	"strings"
@@ -844,4 +845,204 @@ func (c *Ctx) ruleNoAppendIntoLivePrefix(rule string, pkgs []string) {
 		}
 	}
 	R.Check(rule, "-", "appends examined", "", nAppend >= 20, "the rule looked at the append calls of the packages", fmt.Sprintf("%d appends", nAppend))
+}
+
+// ruleNullableDLEQ: a blind-signature row written before the DLEQ columns existed has NULL in e and s. The
+// readers hand such a row out without a DLEQ (the JSON member is omitted), never with an empty one: every store
+// of a non-nil DLEQ into the result built from nullable columns lies behind `Valid` of each of those columns.
+func (c *Ctx) ruleNullableDLEQ(rule string) {
+	R := c.R
+	n := 0
+	isNull := func(t types.Type) bool {
+		return strings.HasPrefix(strings.TrimPrefix(typeShort(c.P, t), "*"), "sql.Null")
+	}
+	for _, m := range c.V.MethodsWithRole(roleReadSigs) {
+		for _, t := range c.V.DBImpls {
+			f := c.P.MethodOf(t, m)
+			if f == nil || f.Blocks == nil {
+				continue
+			}
+			for _, g := range c.OpFuncs(f) {
+				for _, b := range g.Blocks {
+					for _, in := range b.Instrs {
+						lit, ok := in.(*ssa.Alloc)
+						if !ok || !strings.HasSuffix(typeShort(c.P, lit.Type()), "DLEQProof") || lit.Referrers() == nil {
+							continue
+						}
+						// where the literal is handed on: stored into a DLEQ member, or returned by a helper
+						var sinks []ssa.Instruction
+						bases := map[ssa.Value]string{} // nullable local (its address) or parameter -> name
+						for _, r := range *lit.Referrers() {
+							switch x := r.(type) {
+							case *ssa.Store:
+								if x.Val == ssa.Value(lit) {
+									if fa, ok := x.Addr.(*ssa.FieldAddr); ok && fieldName(fa) == "DLEQ" {
+										sinks = append(sinks, x)
+									}
+								}
+							case *ssa.Return:
+								sinks = append(sinks, x)
+							case *ssa.FieldAddr:
+								for _, r2 := range *x.Referrers() {
+									s2, ok := r2.(*ssa.Store)
+									if !ok || s2.Addr != ssa.Value(x) {
+										continue
+									}
+									switch v := s2.Val.(type) {
+									case *ssa.UnOp: // load of local.String
+										if src, ok := v.X.(*ssa.FieldAddr); ok {
+											if al, ok := src.X.(*ssa.Alloc); ok && isNull(al.Type()) {
+												bases[al] = al.Comment
+											}
+										}
+									case *ssa.Field: // param.String
+										if isNull(v.X.Type()) {
+											bases[v.X] = v.X.Name()
+										}
+									}
+								}
+							}
+						}
+						for _, sink := range sinks {
+							for base, name := range bases {
+								n++
+								cut := NewCut()
+								for _, bb := range g.Blocks {
+									if len(bb.Instrs) == 0 {
+										continue
+									}
+									ifi, ok := bb.Instrs[len(bb.Instrs)-1].(*ssa.If)
+									if !ok {
+										continue
+									}
+									cond, neg := ifi.Cond, false
+									if un, ok := cond.(*ssa.UnOp); ok && un.Op == token.NOT {
+										cond, neg = un.X, true
+									}
+									isValid := false
+									switch v := cond.(type) {
+									case *ssa.UnOp:
+										if vfa, ok := v.X.(*ssa.FieldAddr); ok && v.Op == token.MUL && vfa.X == base && fieldName(vfa) == "Valid" {
+											isValid = true
+										}
+									case *ssa.Field:
+										if st, ok := v.X.Type().Underlying().(*types.Struct); ok && v.X == base && st.Field(v.Field).Name() == "Valid" {
+											isValid = true
+										}
+									}
+									if isValid {
+										cut.Edges[Edge{bb, boolInt(neg)}] = true
+									}
+								}
+								reach, path := ReachFromEntry(g, sink, cut)
+								why := ""
+								if reach {
+									why = "the DLEQ is set on a path that never found " + name + ".Valid true: " + c.P.PathString(path)
+								}
+								R.Check(rule, c.P.FuncKey(f), "DLEQ set only when nullable column "+name+" is valid", c.P.InstrPos(sink), !reach,
+									"a signature row whose DLEQ columns are NULL is returned without a DLEQ (the member is omitted, not sent empty)", why)
+							}
+						}
+					}
+				}
+			}
+		}
+	}
+	if n < 4 {
+		R.Unresolved(rule, "DLEQ literals fed by nullable columns in the signature readers", fmt.Sprintf("%d found, 4 on the reference tree", n))
+	}
+}
+
+// ruleRefusalCarriesError: a return that hands out nothing (every non-error result is the zero value) is a
+// refusal and must carry an error. When its error is computed by a function of the module, that function
+// never returns nil: `return nil, stateErr(state)` with a stateErr that has no case for one state answers
+// that state with (nothing, nil) - the handler then writes a 200 with an empty body and caches it.
+func (c *Ctx) ruleRefusalCarriesError(rule string, pkgs []string, min int) {
+	R := c.R
+	n := 0
+	var mayBeNil func(f *ssa.Function, depth int) (bool, string)
+	mayBeNil = func(f *ssa.Function, depth int) (bool, string) {
+		if f == nil || f.Blocks == nil || depth > 3 {
+			return false, ""
+		}
+		for _, r := range Returns(f) {
+			if len(r.Results) == 0 {
+				continue
+			}
+			last := r.Results[len(r.Results)-1]
+			if isNilConst(last) {
+				return true, c.P.InstrPos(r)
+			}
+			if call, ok := last.(*ssa.Call); ok {
+				if h := call.Call.StaticCallee(); h != nil && h.Pkg != nil && c.P.InModule(h.Pkg.Pkg.Path()) && h.Signature.Results().Len() == 1 {
+					if nb, at := mayBeNil(h, depth+1); nb {
+						return true, at
+					}
+				}
+			}
+		}
+		return false, ""
+	}
+	errT := types.Universe.Lookup("error").Type()
+	nRet := 0
+	for _, f := range c.P.Funcs {
+		top := EnclosingTop(f)
+		if top.Pkg == nil || f.Blocks == nil {
+			continue
+		}
+		in := false
+		for _, p := range pkgs {
+			if c.P.Rel(top.Pkg.Pkg.Path()) == p {
+				in = true
+			}
+		}
+		res := f.Signature.Results()
+		if !in || res.Len() < 2 || !types.Identical(res.At(res.Len()-1).Type(), errT) {
+			continue
+		}
+		for _, r := range Returns(f) {
+			nRet++
+			call, ok := r.Results[len(r.Results)-1].(*ssa.Call)
+			if !ok {
+				continue
+			}
+			h := call.Call.StaticCallee()
+			if h == nil || h.Pkg == nil || !c.P.InModule(h.Pkg.Pkg.Path()) || h.Signature.Results().Len() != 1 || h.Blocks == nil {
+				continue
+			}
+			allZero := true
+			for _, v := range r.Results[:len(r.Results)-1] {
+				cst, isC := v.(*ssa.Const)
+				if !isC || !(cst.Value == nil || cst.IsNil() || cst.Value.ExactString() == "0" || cst.Value.ExactString() == `""` || cst.Value.ExactString() == "false") {
+					allZero = false
+				}
+			}
+			if !allZero {
+				continue
+			}
+			// `err := h(); if err != nil { return nil, err }` is the tested form
+			tested := &Cond{Name: "the error was tested non-nil", Match: func(ft *Fact, _ *Origins) bool {
+				if ft.Kind != "errnil" || ft.Pos || ft.A == nil {
+					return false
+				}
+				for _, a := range ft.A.Alts() {
+					if a.Call != ssa.CallInstruction(call) {
+						return false
+					}
+				}
+				return true
+			}}
+			if okT, _ := c.P.OriginsOf(f).Requires(r, tested); okT {
+				continue
+			}
+			n++
+			nb, at := mayBeNil(h, 0)
+			R.Check(rule, c.P.FuncKey(top), "refusal returns the error of "+h.Name()+", which is never nil", c.P.InstrPos(r), !nb,
+				"a return that hands out nothing carries an error: the function that computes it has no path returning nil", h.Name()+" returns nil at "+at)
+		}
+	}
+	if n < min {
+		R.Unresolved(rule, "refusal returns with a computed error", fmt.Sprintf("%d found, at least %d on the reference tree", n, min))
+	}
+	R.Check(rule, "-", "returns examined", "", nRet >= 100, "the rule looked at the returns of the value-and-error functions of the packages", fmt.Sprintf("%d returns, %d of them untested refusals with a computed error", nRet, n))
 }
